@@ -64,7 +64,7 @@ func vNewKey(kind, name string) *vKey {
 		if err != nil {
 			panic(err)
 		}
-		k.priv, k.pub, k.alg = s, &s.PublicKey, jwa.PS512
+		k.priv, k.pub, k.alg = s, &s.PublicKey, jwa.RS512 // PSS with SHA-512 does not fit in 1024 bits
 	case "rsa":
 		s, err := rsa.GenerateKey(crand.Reader, 2048)
 		if err != nil {
